@@ -596,7 +596,21 @@ class Spec:
                 i += 1
         return i, spans
 
+    @staticmethod
+    def unify_types(par, arg, env):
+        if par[0] == 'G':
+            if par[1] in env:
+                return env[par[1]] == arg
+            env[par[1]] = arg
+            return True
+        if par[0] == 'L':
+            return arg is not None and arg[0] == 'L' and Spec.unify_types(par[1], arg[1], env)
+        return par == arg
+
     def unify(self, par, arg, env):
+        return Spec.unify_types(par, arg, env)
+
+    def _unify_old(self, par, arg, env):
         if par[0] == 'G':
             if par[1] in env:
                 return env[par[1]] == arg
@@ -1289,6 +1303,312 @@ def alias_leg(ck, b, tt, callx, model, root, nprog, ncalls, backend):
     return progs, stats
 
 
+# =================================================================================================
+# operator overloads
+# =================================================================================================
+OPERATORS = [("plus", "binary", "{0} plus {1}"), ("minus", "binary", "{0} minus {1}"), ("mal", "binary", "{0} mal {1}"),
+             ("Betrag", "unary", "der Betrag von {0}"), ("unäres minus", "unary", "-{0}"), ("als", "cast", "{0} als {1}")]
+OPERAND_FORMS = {   # type -> [(text, assignable)]
+    Z: [("vz", True), ("(vz)", True), ("5", False), ("vy", True)],
+    T: [("vt", True), ("(vt)", True), ('"s"', False)],
+    K: [("vk", True), ("2,5", False)],
+    B: [("vb", True), ("'x'", False)],
+    PUNKT: [("vp", True), ("(vp)", True), ("(punkt 1 2)", False)],
+    KENNUNG: [("vd", True), ("(vd)", True)],
+    L(Z): [("vzl", True)],
+}
+RET_TEXT = {Z: "eine Zahl", T: "einen Text", K: "eine Kommazahl", PUNKT: "einen Punkt", B: "einen Buchstaben", KENNUNG: "eine Kennung"}
+RET_VALUE = {Z: "1", T: '"r"', K: "1,5", PUNKT: "punkt 1 2", B: "'r'", KENNUNG: "(1 als Kennung)"}
+CAST_NAME = {Z: "Zahl", T: "Text", K: "Kommazahl", PUNKT: "Punkt", B: "Buchstabe", KENNUNG: "Kennung"}
+
+
+class ODecl:
+    def __init__(self, oid, op, params, generic, ret):
+        self.oid, self.op, self.params, self.generic, self.ret = oid, op, params, generic, ret   # params [(name, type, ref)]
+        self.name = "o%d" % oid
+
+    def refs(self):
+        return sum(1 for p in self.params if p[2])
+
+    def deep(self):
+        return sum(1 for p in self.params if is_generic_type(p[1]))
+
+
+def oparams_dup(a, b):
+    """operatorParameterTypesEqual: the language's notion of 'already overloaded'"""
+    if len(a) != len(b):
+        return False
+    for p, q in zip(a, b):
+        g1, g2 = is_generic_type(p[1]), is_generic_type(q[1])
+        if g1 or g2:
+            if not (g1 and g2 and p[2] == q[2]):
+                return False
+        elif p[1] != q[1] or p[2] != q[2]:
+            return False
+    return True
+
+
+def gen_overload_program(rng, idx):
+    p = Prog()
+    p.idx = idx
+    ops = rng.sample(OPERATORS, rng.randint(1, 3))
+    decls = []
+    oid = 0
+    pool = [Z, T, K, B, PUNKT, KENNUNG, L(Z)]
+    for (op, kind, _) in ops:
+        n = rng.randint(2, 6)
+        arity = 2 if kind == "binary" else 1
+        made = []
+        tries = 0
+        while len(made) < n and tries < 40:
+            tries += 1
+            generic = rng.random() < 0.25
+            params = []
+            base = made and rng.random() < 0.6 and rng.choice(made) or None
+            for i in range(arity):
+                if base is not None and rng.random() < 0.7:
+                    t = base.params[i][1]            # same types, other Referenz pattern
+                    if is_generic_type(t) != generic:
+                        t = rng.choice(pool)
+                elif generic and (i == 0 or rng.random() < 0.5):
+                    t = rng.choice([G('T'), G('T'), L(G('T'))])
+                else:
+                    t = rng.choice(pool)
+                params.append(("ab"[i], t, rng.random() < 0.35))
+            generic = any(is_generic_type(q[1]) for q in params)
+            if kind == "cast":
+                ret = rng.choice([Z, T, PUNKT, K])
+            else:
+                ret = rng.choice([Z, T])
+            decl_params = list(params)
+            d = ODecl(oid + 1, op, params, generic, ret)
+            if any(oparams_dup(x.params, d.params) and (kind != "cast" or x.ret == d.ret) for x in made):
+                continue
+            oid += 1
+            made.append(d)
+        decls += made
+    p.odecls = decls
+    # sites
+    sites = []
+    for _ in range(18):
+        op, kind, fmt = rng.choice(ops)
+        cands = [d for d in decls if d.op == op]
+        if cands and rng.random() < 0.8:
+            d = rng.choice(cands)
+            env = {}
+            tys = []
+            for q in d.params:
+                t = q[1]
+                if is_generic_type(t):
+                    if 'T' not in env:
+                        env['T'] = rng.choice([PUNKT, PUNKT, Z, T]) if t[0] == 'G' else Z
+                    t = env['T'] if t[0] == 'G' else L(env['T'])
+                if t not in OPERAND_FORMS or rng.random() < 0.1:
+                    t = rng.choice([Z, T, K, B, PUNKT])
+                tys.append(t)
+        else:
+            tys = [rng.choice([Z, T, K, B, PUNKT, KENNUNG]) for _ in range(2 if kind == "binary" else 1)]
+        forms = [rng.choice(OPERAND_FORMS[t]) for t in tys]
+        if kind == "unary" and op == "unäres minus" and forms[0][0][0].isdigit():
+            forms[0] = OPERAND_FORMS[tys[0]][0]
+        target = None
+        if kind == "cast":
+            target = rng.choice([d.ret for d in cands] + [T]) if cands else T
+            text = "(" + fmt.format(forms[0][0], CAST_NAME[target]) + ")"
+        else:
+            text = "(" + fmt.format(*[f[0] for f in forms]) + ")"
+        sites.append(dict(op=op, kind=kind, text=text, operands=list(zip(tys, [f[1] for f in forms], [f[0] for f in forms])), target=target))
+    p.osites = sites
+    # render
+    out = [TYPE_DECLS, """Wir nennen die Kombination aus
+	der Zahl x mit Standardwert 0,
+	der Zahl y mit Standardwert 0,
+einen Punkt, und erstellen sie so:
+	"punkt <x> <y>"
+"""]
+    for d in decls:
+        # declaration order of the parameters = operand order (operators are positional)
+        ps = d.params
+        head = "Die %sFunktion %s" % ("generische " if d.generic else "", d.name)
+        if len(ps) == 1:
+            head += " mit dem Parameter %s vom Typ %s," % (ps[0][0], type_text(ps[0][1], ps[0][2]))
+        else:
+            head += " mit den Parametern %s und %s vom Typ %s und %s," % (ps[0][0], ps[1][0], type_text(ps[0][1], ps[0][2]), type_text(ps[1][1], ps[1][2]))
+        head += " gibt %s zurück, macht:\n\tGib %s zurück.\nUnd überlädt den \"%s\" Operator.\n" % (RET_TEXT[d.ret], RET_VALUE[d.ret], d.op)
+        out.append(head)
+    out.append(VAR_DECLS + "Der Punkt vp ist punkt 1 2.\n")
+    text = "\n".join(out)
+    n = text.count("\n")
+    p.site_lines = []
+    for st in sites:
+        n += 1
+        p.site_lines.append(n)
+        text += st["text"] + ".\n"
+    p.files = {"main.ddp": text}
+    return p
+
+
+def spec_overload(decls, st):
+    """the property: exact operand types; Referenz only for assignables; generic overloads only for user-defined
+    operand types; non-generic before generic, then more Referenz parameters; built-in otherwise"""
+    fitting = []
+    user = any((t[1] if t[0] == 'L' else t) == PUNKT for t, _, _ in st["operands"])
+    for d in decls:
+        if d.op != st["op"] or len(d.params) != len(st["operands"]):
+            continue
+        env = {}
+        ok = True
+        for q, (t, asg, _) in zip(d.params, st["operands"]):
+            if not Spec.unify_types(q[1], t, env):
+                ok = False
+                break
+            if q[2] and not asg:
+                ok = False
+                break
+        if ok and d.generic and not user:
+            ok = False
+        if ok and st["target"] is not None and d.ret != st["target"]:
+            ok = False
+        if ok:
+            fitting.append(d)
+
+    def dominates(b, a):
+        if b.generic != a.generic:
+            return a.generic
+        if b.deep() != a.deep():
+            return False
+        return b.refs() > a.refs()
+    return [d for d in fitting if not any(dominates(b, d) for b in fitting)], fitting
+
+
+def overload_leg(ck, b, callx, model, root, nprog):
+    rng = ck.rng
+    progs = [gen_overload_program(rng, 5000 + i) for i in range(nprog)]
+    for p in progs:
+        write_program(p, root)
+    reqs = [dict(id="p%d" % p.idx, file=os.path.join(p.dir, "main.ddp")) for p in progs]
+    shards = [[r for r in reqs if (int(r["id"][1:]) % vlib.NCPU) == j] for j in range(vlib.NCPU)]
+    outs = vlib.pmap(lambda sh: callx_batch(callx, sh, b.dir)[0] if sh else {}, shards)
+    resp = {}
+    for o in outs:
+        resp.update(o)
+    stats = dict(programs=0, sites=0, overloaded=0, builtin=0, ref_overload=0, generic_overload=0, several_fit=0, tables=0, table_entries=0)
+    lines = []
+    todo = []
+    for p in progs:
+        pr = resp.get("p%d" % p.idx)
+        if pr is None or pr.get("panic") or pr.get("nil_module"):
+            ck.violation("frontend crash or no answer (overloads)", "p%d: %s" % (p.idx, (pr or {}).get("panic") or "no answer"), dict(files=p.files))
+            continue
+        stats['programs'] += 1
+        errs = [d for d in pr.get("diags") or [] if d["level"] == 2 and d["line"] < p.site_lines[0]]
+        if errs:
+            ck.violation("overload declaration rejected", "p%d: a well-formed overload declaration was rejected: %s" % (p.idx, errs[0]["msg"]), dict(files=p.files))
+            continue
+        tyids = {}
+        for op in sorted({d.op for d in p.odecls}):
+            ds = [d for d in p.odecls if d.op == op]
+            lines.append("OT %d" % (1 if op == "als" else 0))
+            for d in ds:
+                lines.append("OD %d %d %s ; %s" % (d.oid, 1 if d.generic else 0, ty_model(d.ret, tyids),
+                                                    " ".join("%s:%s:%d" % (q[0].encode().hex(), ty_model(q[1], tyids), 1 if q[2] else 0) for q in d.params)))
+            tab_impl = (pr.get("optab") or {}).get(op, [])
+            todo.append(("T", p, op, tab_impl, len(ds)))
+            stats['tables'] += 1
+            stats['table_entries'] += len(ds)
+            for k, st in enumerate(p.osites):
+                if st["op"] != op:
+                    continue
+                cid = "p%d:%d" % (p.idx, k)
+                lines.append("OF %s %s ; %s ; %s ; " % (cid, ty_model(st["target"], tyids) if st["target"] else "-",
+                                                       " ".join("%s:%d" % (ty_model(t, tyids), 1 if a else 0) for t, a, _ in st["operands"]),
+                                                       ty_model(PUNKT, tyids)[1:]))
+                io = [o for o in pr.get("ops") or [] if o["line"] == p.site_lines[k] and o["col"] == 2 and o["kind"] == st["kind"]]
+                todo.append(("S", p, k, io[0] if io else None, cid))
+    mp = subprocess.run([model], input="\n".join(lines) + "\n", capture_output=True, text=True, timeout=900)
+    if mp.returncode != 0:
+        ck.broken_obligation("extracted model driver failed (overloads): " + mp.stderr[-500:], mp.stderr)
+        return stats
+    mtab, msite = [], {}
+    for l in mp.stdout.splitlines():
+        if l.startswith("OI "):
+            mtab.append(l)
+        elif l.startswith("OR "):
+            f = l.split(";")[0].split()
+            binds = {}
+            if ";" in l:
+                for x in l.split(";")[1].split():
+                    n, v = x.split("=")
+                    binds[bytes.fromhex(n).decode()] = int(v)
+            msite[f[1]] = (f[2], int(f[3]) if f[2] == "OV" else None, binds)
+    mismatches = []
+    ti = 0
+    for item in todo:
+        if item[0] == "T":
+            _, p, op, tab_impl, n = item
+            last = mtab[ti + n - 1]
+            ti += n
+            order = [int(x) for x in last.split(";")[1].split()]
+            if ["o%d" % x for x in order] != tab_impl:
+                mismatches.append(("overload table of '%s': implementation %s, model %s" % (op, tab_impl, order), p))
+            # the property: references are prioritised, generic overloads come last
+            byname = {d.name: d for d in p.odecls}
+            seq = [byname[x] for x in tab_impl if x in byname]
+            for x, y in zip(seq, seq[1:]):
+                if (x.deep(), -x.refs()) > (y.deep(), -y.refs()):
+                    ck.violation("overload table order op=%s" % op, "p%d: %s stands before %s in the table of '%s'" % (p.idx, x.name, y.name, op), dict(files=p.files))
+            continue
+        _, p, k, io, cid = item
+        st = p.osites[k]
+        ck.count()
+        stats['sites'] += 1
+        best, fitting = spec_overload(p.odecls, st)
+        stats['several_fit'] += len(fitting) >= 2
+        if len([d for d in p.odecls if d.op == st["op"]]) >= 2:
+            ck.nontrivial(("ov", st["op"], tuple(sorted((d.deep(), d.refs(), tuple(q[1:] for q in d.params)) for d in p.odecls if d.op == st["op"])), tuple(x[:2] for x in st["operands"]), st["target"]))
+        if io is None:
+            mismatches.append(("no operator expression found at p%d line %d (%s)" % (p.idx, p.site_lines[k], st["text"]), p))
+            continue
+        got = io.get("ogeneric") or io.get("overload")
+        rp = dict(files=p.files, site=st["text"] + ".", line=p.site_lines[k])
+        if not fitting:
+            stats['builtin'] += 1
+            if got:
+                ck.violation("overload chosen-without-exact-types op=%s" % st["op"], "p%d: '%s' is overloaded by %s but no overload has exactly the operand types %s" % (
+                    p.idx, st["text"], got, [(type_text(t, False), "assignable" if a else "value") for t, a, _ in st["operands"]]), rp)
+        else:
+            stats['overloaded'] += 1
+            if not got:
+                ck.violation("overload ignored op=%s" % st["op"], "p%d: '%s' has the built-in meaning although %s fits exactly" % (p.idx, st["text"], best[0].name), rp)
+            elif got not in [d.name for d in best]:
+                ck.violation("overload dominated-choice op=%s" % st["op"], "p%d: '%s' is overloaded by %s, the property prefers %s" % (p.idx, st["text"], got, [d.name for d in best]), rp)
+            else:
+                d = [x for x in best if x.name == got][0]
+                stats['ref_overload'] += d.refs() > 0
+                stats['generic_overload'] += d.generic
+                for q, (t, a, txt) in zip(d.params, st["operands"]):
+                    arg = (io.get("oargs") or {}).get(q[0])
+                    if arg is None or arg["text"].strip("() ") != txt.strip("() "):
+                        ck.violation("overload argument binding op=%s" % st["op"], "p%d: '%s': parameter %s of %s holds %s, operand is %s" % (p.idx, st["text"], q[0], got, arg and arg["text"], txt), rp)
+        m = msite.get(cid)
+        if m is None:
+            mismatches.append(("model gave no answer for " + cid, p))
+        elif m[0] == "PANIC":
+            mismatches.append(("model: index out of range for " + st["text"], p))
+        elif (m[0] == "OV") != bool(got) or (m[0] == "OV" and "o%d" % m[1] != got):
+            mismatches.append(("'%s': implementation %s, model %s" % (st["text"], got or "built-in", m[1] if m[0] == "OV" else "built-in"), p))
+        elif m[0] == "OV":
+            d = [x for x in p.odecls if x.oid == m[1]][0]
+            for q in d.params:
+                arg = (io.get("oargs") or {}).get(q[0])
+                if arg is None or arg["text"].strip("() ") != st["operands"][m[2][q[0]]][2].strip("() "):
+                    mismatches.append(("'%s': argument map differs for %s" % (st["text"], q[0]), p))
+    if mismatches:
+        ck.broken_obligation("correspondence Overload.v vs insertOperatorOverload/findOverload fails at %d points; first: %s" % (len(mismatches), mismatches[0][0]),
+                             json.dumps(dict(files=mismatches[0][1].files), ensure_ascii=False)[:6000])
+    return stats
+
+
 def main():
     ck = Check(PID, "proof")
     b = Build()
@@ -1310,6 +1630,7 @@ def main():
     nprog, ncalls = (110, 20) if ck.quick else (1500, 20)
     progs, stats = alias_leg(ck, b, tt, callx, model, root, nprog, ncalls, backend=False)
     ck.cov["alias_leg"] = stats
+    ck.cov["overload_leg"] = overload_leg(ck, b, callx, model, root, 40 if ck.quick else 600)
     ck.finish()
 
 
